@@ -32,4 +32,48 @@ def ulebEncode (n : Nat) : Bytes :=
   if n < 128 then [UInt8.ofNat n] else UInt8.ofNat (n % 128 + 128) :: ulebEncode (n / 128)
 decreasing_by omega
 
+/-- `nonzero_leb128_u64` -/
+def nonzeroUleb64 (bs : Bytes) : PResult Nat :=
+  match uleb64 bs with
+  | .ok (n, r) => if n = 0 then .error .unexpectedZero else .ok (n, r)
+  | .error e => .error e
+
+/-- Reinterpret a 64-bit pattern (`Nat` below 2^64) as an `i64`. -/
+def toI64 (n : Nat) : Int := if n < 2 ^ 63 then (n : Int) else (n : Int) - 2 ^ 64
+
+/-- `leb128_i64`: the loop of leb128.rs with `res`/`shift`/`prev` as accumulators.  `res` is the
+    two's-complement bit pattern of the Rust `i64` (a `Nat` modulo 2^64); it is reinterpreted as a
+    signed number (`toI64`) when returned.  `-1 << shift` is the pattern `(2^64-1) <<< shift`
+    truncated to 64 bits.  (`shift` never reaches 64 at a `<<`, so the Rust shifts cannot
+    overflow-panic.) -/
+def slebLoop : Bytes → (res shift : Nat) → (prev : UInt8) → PResult Int
+  | [], _, _, _ => .error .incomplete
+  | b :: rest, res, shift, prev =>
+    let res' := (res ||| ((b.toNat &&& 0x7f) <<< shift)) % 2 ^ 64
+    let shift' := shift + 7
+    if b.toNat &&& 0x80 = 0 then
+      if shift' > 64 ∧ b.toNat ≠ 0 ∧ b.toNat ≠ 0x7f then .error .tooLarge
+      else if shift' > 7 ∧ ((b.toNat = 0 ∧ prev.toNat &&& 0x40 = 0)
+                            ∨ (b.toNat = 0x7f ∧ prev.toNat &&& 0x40 > 0)) then .error .overlong
+      else if shift' < 64 ∧ b.toNat &&& 0x40 > 0 then
+        .ok (toI64 (res' ||| (((2 ^ 64 - 1) <<< shift') % 2 ^ 64)), rest)
+      else .ok (toI64 res', rest)
+    else if shift' > 64 then .error .tooLarge
+    else slebLoop rest res' shift' b
+
+def sleb64 (bs : Bytes) : PResult Int := slebLoop bs 0 0 0
+
+/-- `leb128::write::signed`; `val` is meant to be in the `i64` range, `>>>` on `Int` is the
+    arithmetic (flooring) shift, `val as u8` is `val mod 256`. -/
+def slebEncode (val : Int) : Bytes :=
+  let byte : UInt8 := UInt8.ofNat (val % 256).toNat
+  let val6 := val >>> 6
+  if val6 = 0 ∨ val6 = -1 then [byte &&& 0x7f]
+  else (byte ||| 0x80) :: slebEncode (val6 >>> 1)
+termination_by val.natAbs
+decreasing_by
+  have h : ¬(val >>> 6 = 0 ∨ val >>> 6 = -1) := by assumption
+  simp only [Int.shiftRight_eq_div_pow] at h ⊢
+  omega
+
 end AmVerif.Leb
